@@ -2,12 +2,15 @@
   C12 — the derive macro implements the declared layout for any user-defined struct.
 
   The theorems of C14 (suffix independence of every command and delimited container, for ALL schemas),
-  C15 (dispatch, for ALL enum definitions) and C13/C01 (as far as proved) are already quantified over
-  arbitrary schemas — any size, any nesting depth — which is the "programs" quantifier of this property.
-  This file adds what is specific: the boundary of well-formedness, as kernel-checked counter-examples.
+  C15 (dispatch, for ALL enum definitions) and C13/C01 are quantified over arbitrary schemas — any size,
+  any nesting depth — which is the "programs" quantifier of this property. `any_wellformed_roundtrip` is the
+  round trip for EVERY schema accepted by the Boolean well-formedness check `structWf` (Proofs/Canon.lean).
+  This file adds what is specific: the boundary of well-formedness, as kernel-checked counter-examples, each
+  of which `fieldsWf` rejects.
 -/
 import ZvtVerif.Derive
 import ZvtVerif.Properties.C14
+import ZvtVerif.Proofs.Canon
 namespace Zvt.C12
 open Zvt
 
@@ -41,5 +44,17 @@ theorem wf_greedy_last_is_necessary :
 /-- the generic suffix law instantiated at an arbitrary user-defined command (re-export of C14). -/
 theorem any_command_suffix (s : StructDef) (c : Nat × Nat) (hc : s.ctrl = some c) (b x : Bytes) (v : Val) (r : Bytes)
     (h : decodeCmd s b = .ok (v, r)) : decodeCmd s (b ++ x) = .ok (v, r ++ x) := C14.cmd_suffix s c hc b x v r h
+
+/-- **Generated code = declared layout, for every well-formed user-defined struct**: serialise then deserialise
+is the identity on canonical values (re-export of the generic theorem of Proofs/Canon.lean). -/
+theorem any_wellformed_roundtrip (s : StructDef) (hwf : structWf s = true) (v : Val) (hc : s.canon v) :
+    ∃ bytes, encodeCmd s v = .ok bytes ∧ decodeCmd s bytes = .ok (v, []) ∧
+      (s.ctrl.isSome = true → ∀ x, decodeCmd s (bytes ++ x) = .ok (v, x)) :=
+  packet_roundtrip s hwf v hc
+
+/-- the well-formedness check rejects exactly the three boundary shapes above (it is not vacuous, and the
+hypothesis of `any_wellformed_roundtrip` cannot be dropped). -/
+theorem wf_rejects_boundary_shapes :
+    fieldsWf posAfterTagged = false ∧ fieldsWf tag1f = false ∧ fieldsWf greedyThenTagged = false := by decide +kernel
 
 end Zvt.C12
